@@ -76,6 +76,10 @@ PROPS = {
     'C16': lay_prop('C16'),
     'C15': lay_prop('C15', ['Check/C16']),
     'C11': lay_prop('C11'),
+    'C03': lay_prop('C03', ['Spec/Charts']),
+    'C09': lay_prop('C09'),
+    'C10': lay_prop('C10'),
+    'C12': dict(lay_prop('C12'), replay_kind='typable'),
     'C18': {
         'lib': LIB + ['Spec/Compose'],
         'syn': ['Props/C18'], 'needs_syn': ['Gen/Lib', 'Spec/Compose'],
